@@ -238,11 +238,10 @@ func (dw *DiskWriter) requestAsyncFileData(p, dest string, fi os.FileInfo, st *t
 		}); err != nil {
 			return err
 		}
-		if os.FileMode(st.Mode)&(os.ModeSetuid|os.ModeSetgid) != 0 {
-			// writing the content as an unprivileged user clears these bits
-			if err := os.Chmod(dest, os.FileMode(st.Mode)); err != nil {
-				return errors.WithStack(err)
-			}
+		if os.FileMode(st.Mode)&(os.ModeSetuid|os.ModeSetgid) != 0 || len(st.Xattrs) > 0 {
+			// writing the content clears setuid/setgid bits (for an
+			// unprivileged user) and file capabilities: apply them again
+			return rewriteMetadata(dest, st)
 		}
 		return chtimes(dest, st.ModTime) // TODO: parent dirs
 	})
